@@ -438,6 +438,15 @@ class Builder:
         # attribute reference: alpha of LeakyRelu refers to function attribute `slope`
         f.node[2].attribute.append(_attr_ref("alpha", "slope"))
         f.attribute.append("slope")
+        if self.r.random() < 0.5:
+            # a node whose operands are all constants but whose attribute is a reference: it must not be evaluated inside the function
+            # (the attribute value is only known at the call site)
+            extra = [oh.make_node("Constant", [], ["kc"], value=nh.from_array(np.array([-1.0, 2.0, -0.5][: max(1, (a.shape[-1] if a.shape else 1))] if False else [-1.0], dtype=np.float32), "kc_v")),
+                     oh.make_node("LeakyRelu", ["kc"], ["kl"]), oh.make_node("Add", ["q0", "kl"], ["q"])]
+            extra[1].attribute.append(_attr_ref("alpha", "slope"))
+            del f.node[3]
+            f.node.extend(extra)
+            self.features.add("function_foldable_node_with_attr_ref")
         self.functions.append(f)
         self.features.add("function_attr_ref")
         outs = self.name()
